@@ -290,7 +290,7 @@ def process_item(mod, cfg, st, rng, tier):
         pc_s = " ".join(c.sexpr() for c in p.pc)
         cfg_s = json.dumps(cfg, sort_keys=True)
         st.state_hashes.add(hashlib.blake2b((cfg_s + pc_s).encode(), digest_size=8).digest())
-        st.transitions += len(p.decisions)
+        st.transitions += len(p.decisions) + p.syntactic
         for name, P in pl:
             st.obligations += 1
             is_canary = name.startswith("canary:")
@@ -299,14 +299,18 @@ def process_item(mod, cfg, st, rng, tier):
             Ps = z3.simplify(P)
             if z3.is_true(Ps):
                 st.simp += 1
-                if p.pc:  # decided on a value-dependent path of the real code
+                if len(st.samples) < 2 and (p.pc or p.syntactic) and not is_canary:
+                    st.samples.append({"cfg": cfg, "obligation": name, "path_condition": [str(c)[:300] for c in p.pc][:8],
+                                       "claim": str(P)[:300], "verdict": "closed by the simplifier: the claim reduces to true for all values on this path",
+                                       "symbolic_comparisons_on_path": p.syntactic})
+                if p.pc or p.syntactic:  # decided on a value-dependent path, or the real code compared symbolic terms on the way
                     st.hashes.add(hashlib.blake2b((cfg_s + pc_s + "=>" + name).encode(), digest_size=8).digest())
                 continue  # (a canary may hold on SOME paths; the run needs at least one refuted+replayed canary)
             h = hashlib.blake2b((cfg_s + pc_s + "=>" + name + Ps.sexpr()).encode(), digest_size=8).digest()
             st.hashes.add(h)
             r, s, dt = _solve(p.pc, z3.Not(P), OBLIG_TIMEOUT_MS)
             st.solver_s += dt
-            if len(st.samples) < 3 and not is_canary and r == z3.unsat:
+            if len(st.samples) < 4 and not is_canary and r == z3.unsat:
                 st.samples.append({"cfg": cfg, "obligation": name, "path_condition": [str(c)[:300] for c in p.pc][:8],
                                    "claim": str(Ps)[:600], "verdict": "unsat(negation)", "solver_s": round(dt, 4)})
             if r == z3.unsat:
@@ -590,7 +594,8 @@ def finish(mod, tier, seed, total, n_cfgs, wall, extra=None):
             "evaluations": total.paths,
             "distinct_nontrivial": len(total.hashes),
             "rule": "evaluations = feasible paths of the real code executed on proxies; an obligation instance is non-trivial when it needed "
-                    "the solver or was decided on a value-dependent path (non-empty path condition), and distinct when the hash of "
+                    "the solver, or was decided on a value-dependent path (non-empty path condition), or on a path where the real code compared symbolic "
+                    "terms that the simplifier decided for all values (term identity); distinct when the hash of "
                     "(configuration, path condition, obligation, claim) was not seen before",
             "states": max(len(total.state_hashes), 1),
             "transitions": max(total.transitions, 1),
